@@ -1,4 +1,5 @@
 import Model.Bytes
+import Model.Field
 
 /-! Threshold signatures: bls_thresholdsign.go (stateful inspector object, stateless reconstruction),
 bls_thresholdsign_core.c (Lagrange coefficients with 8 indices per 64-bit limb). -/
@@ -31,6 +32,13 @@ def coeffParts (r : Nat) (indices : List Nat) (i : Nat) : Nat × Nat × Bool :=
     (fun (acc : Nat × Nat × Bool) js =>
       let (n, d, sg) := batch indices i js (1, 1, acc.2.2)
       (acc.1 * n % r, acc.2.1 * d % r, sg)) (1 % r, 1 % r, false)
+
+/-- the coefficient as `Fr_lagrange_coeff_at_zero` finishes it: negate the denominator if the sign is set,
+    invert it (Fermat exponentiation), multiply by the numerator -/
+def coeff (r : Nat) (xs : List Nat) (i : Nat) : Nat :=
+  let (n, d, sg) := coeffParts r xs i
+  let d := if sg then (r - d) % r else d
+  n * Model.powMod d (r - 2) r % r
 
 /-! ### the stateful object (`blsThresholdSignatureInspector`), sequential semantics -/
 
